@@ -3503,7 +3503,12 @@ impl Connection {
             );
             NewConnectionId {
                 sequence: issued.sequence,
-                retire_prior_to: self.local_cid_state.retire_prior_to(),
+                // A CID queued (or retransmitted) from before the latest rotation may have a sequence
+                // number below the current threshold; Retire Prior To must never exceed it
+                retire_prior_to: self
+                    .local_cid_state
+                    .retire_prior_to()
+                    .min(issued.sequence),
                 id: issued.id,
                 reset_token: issued.reset_token,
             }
